@@ -114,6 +114,27 @@ CHECKS = {
             {"pkg": "pkg/sql/security", "harness": "VxC16_Threshold", "expect_asserts": ["C16.threshold_exact", "C16.counts", "C16.repeatable"]},
         ],
     },
+    "C17": {
+        "bounds": {"quick": "L001 trailing whitespace: all texts <= 4 bytes over {space tab \\n \\r a ' -}; L002 mixed indentation: <= 4 over {space tab \\n a '}; L003 blank lines: <= 5 over {\\n \\r space a '}; L005 redundant whitespace: <= 4 over {space a ' \\n - ,}; L007 keyword case (upper): <= 5 over {o r R space ' \"}; L008 comma placement (no auto-fix): <= 5 over {a , \\n space ' -}",
+                   "thorough": "L001 <= 5, L002 <= 6, L003 <= 7, L005 <= 5, L007 <= 6 (upper) and <= 5 (lower)"},
+        "outside": "the language server's format action (lsp.formatSQL) and the CLI lint --fix write-back; L004/L006/L009/L010 (no text rewrite); longer texts; the long-line rule",
+        "assumptions": ["'same meaning' = same (kind, value) token sequence from the real tokenizer, keyword values compared case-insensitively, comment texts compared modulo trailing blanks; texts that do not tokenize are outside the claim"],
+        "runs": [
+            {"pkg": "pkg/linter/rules/whitespace", "harness": "VxC17_L001_4", "tiers": ["quick"]},
+            {"pkg": "pkg/linter/rules/whitespace", "harness": "VxC17_L002_4", "tiers": ["quick"]},
+            {"pkg": "pkg/linter/rules/whitespace", "harness": "VxC17_L003_5", "tiers": ["quick"]},
+            {"pkg": "pkg/linter/rules/whitespace", "harness": "VxC17_L005_4", "tiers": ["quick"]},
+            {"pkg": "pkg/linter/rules/keywords", "harness": "VxC17_L007_Upper5", "tiers": ["quick"], "expect_asserts": ["C17.L007.same_value", "C17.L007.idempotent", "C17.L007.fixed_is_clean"]},
+            {"pkg": "pkg/linter/rules/style", "harness": "VxC17_L008_Trailing5", "tiers": ["quick"]},
+            {"pkg": "pkg/linter/rules/whitespace", "harness": "VxC17_L001_5", "tiers": ["thorough"]},
+            {"pkg": "pkg/linter/rules/whitespace", "harness": "VxC17_L002_6", "tiers": ["thorough"]},
+            {"pkg": "pkg/linter/rules/whitespace", "harness": "VxC17_L003_7", "tiers": ["thorough"]},
+            {"pkg": "pkg/linter/rules/whitespace", "harness": "VxC17_L005_5", "tiers": ["thorough"]},
+            {"pkg": "pkg/linter/rules/keywords", "harness": "VxC17_L007_Upper6", "tiers": ["thorough"]},
+            {"pkg": "pkg/linter/rules/keywords", "harness": "VxC17_L007_Lower5", "tiers": ["thorough"]},
+            {"pkg": "pkg/linter/rules/style", "harness": "VxC17_L008_Leading5", "tiers": ["thorough"]},
+        ],
+    },
     "C11": {
         "bounds": {"quick": "Parser.ParseContext under a context that turns done at its k-th poll (k symbolic 0..63, both Canceled and DeadlineExceeded, arbitrary start depth 0..49): a 70-token nested statement (CTE, IN list, CASE, nested function calls, JOIN ON, BETWEEN, UNION, EXISTS sub-query), an INSERT ... RETURNING with function calls, and every <= 2-token continuation of SELECT / SELECT a FROM t WHERE over the 45-row expression table",
                    "thorough": "<= 3-token continuations"},
